@@ -250,7 +250,7 @@ Proof.
   split; [intro t; split; [apply z_start_of_day_fixed|apply z_end_of_day_fixed]|].
   split.
   { intros t n. unfold z_get_relative_start_of_day, z_get_relative_end_of_day, get_relative_start_of_day, get_relative_end_of_day.
-    rewrite z_add_date_fixed, !z_start_of_day_fixed, !z_end_of_day_fixed. split; reflexivity. }
+    rewrite z_add_date_fixed. split; [rewrite !z_start_of_day_fixed; reflexivity|rewrite !z_end_of_day_fixed; reflexivity]. }
   split.
   { intros t w. unfold z_get_end_of_week, get_end_of_week. rewrite z_start_of_week_fixed, z_end_of_day_fixed. split; reflexivity. }
   split.
